@@ -144,8 +144,8 @@ def rnd_request(rng, idx, site, used_mids, remote=None, token=None, raw_bias=0.0
     out = rnd_outcome(rng, idx, raw)
     nr = rng.choice(NR_VALUES)
     if out["k"] == "return" and out["value"]["v"] == "msg" and rng.random() < 0.06:
-        # a Message whose code is not a response code (empty, request, reserved, signalling); No-Response left out (it would go on the wire)
-        out["value"]["code"] = rng.choice([0, 1, 2, 31, 32, 63, 192, 200, 225, 255]); out["value"]["nr"] = None; nr = None
+        # a Message whose code is not a response code (empty, request, reserved, signalling)
+        out["value"]["code"] = rng.choice([0, 1, 2, 31, 32, 63, 192, 200, 225, 255])
     obs = rng.choice([None, None, None, None, None, None, 0, 1, 7])
     if is_obs(kind): obs = rng.choice([0, 0, 0, 0, None, 1, 2]); code = rng.choice([1, 1, 1, 5, 5, 2, code])
     return {"obs": obs, "id": idx, "remote": remote, "token": token, "mid": mid, "con": rng.random() < 0.6, "code": code, "path": path,
@@ -305,7 +305,7 @@ class C09(fw.Property):
     coq_props = "Props/C09.v"
     gen_jobs = []
     model_imports = ["Verif.Model.C09", "Verif.Model.C09Stack"]
-    quick_budget = 240
+    quick_budget = 200
     thorough_budget = 8000
     design_ref = "DESIGN.md section 14"
     technique = ("Coq proofs over an executable model of the rendering decision, the two Pipes of a request (callbacks defunctionalised) and the "
@@ -314,8 +314,7 @@ class C09(fw.Property):
     level_text = ("Theorems (closed under the global context): the decision table of final responses (default codes, renderable errors, bare 5.00, 4.04/4.05), "
                   "the once-only final event of the request's pipes for every behaviour of the rendering coroutine and every stop(), and for the stack model: "
                   "per request at most one final response in every run, exactly one for every request whose handler gets to finish, content depending on that request only.")
-    level_note = ("Hand-written model tied to the code by the correspondence run only (no translated kernel). Two open findings (known_findings.d/C09.json): a returned Message with a non-response code is sent as a message of our own and the request stays unanswered "
-                  "(modelled faithfully: send_plain, C09_non_response_code_refuted); a returned Message that cannot be serialised (str payload) can block "
+    level_note = ("Hand-written model tied to the code by the correspondence run only (no translated kernel). One open finding (known_findings.d/C09.json): a returned Message that cannot be serialised (str payload) can block "
                   "the remote's backlog / leave the request un-ACKed (excluded from the model by the type of m_payload, exercised by the oracle-only stream 'unencodable'); "
                   "the former finding (error renderer returning a non-Message never answered) is fixed in /repo (abf5426) and modelled as fixed. Not modelled: deduplication, retransmission, block-wise, observe, handlers raising BaseException "
                   "(CancelledError), the Block1/Block2/Uri-Path-Abbrev branches in front of the handler (oracle-only stream 'options'). 'Exactly one on the wire' at run level = "
@@ -325,7 +324,7 @@ class C09(fw.Property):
             "multicast flag, Observe option, fast/slow handler, every outcome kind) ; observable (20 %) = requests with Observe=0 / other / none to resource.ObservableResource subclasses and "
             "Resources mixed with interfaces.ObservableResource whose add_observation accepts, declines, accepts-then-deregisters or raises, alone and among neighbours ; concurrent = 2-6 requests from 1-3 remotes with random interleaving of arrival, handler completion, "
             "time steps around EMPTY_ACK_DELAY and client ACKs, token reuse and override ; pipe = resources implementing render_to_pipe that perform random sequences "
-            "of add_response (final / non-final / non-message values), raise and return ; options (4 %, oracle only) = requests with Block2 / Block1 / Uri-Path-Abbrev options and responses of 1100-3000 bytes (branches in front of the handler that the model does not have: exactly one response each, code from the expected set) ; 6 % of returned messages carry a non-response code (open finding) ; unencodable (4 %, oracle only, no model term) = a handler returning a Message whose payload is a str, followed by a well-behaved neighbour ; thorough adds the full product outcome x method x CON/NON x timing. "
+            "of add_response (final / non-final / non-message values), raise and return ; options (4 %, oracle only) = requests with Block2 / Block1 / Uri-Path-Abbrev options and responses of 1100-3000 bytes (branches in front of the handler that the model does not have: exactly one response each, code from the expected set) ; 6 % of returned messages carry a non-response code (5.00 since a9de195) ; unencodable (4 %, oracle only, no model term) = a handler returning a Message whose payload is a str, followed by a well-behaved neighbour ; thorough adds the full product outcome x method x CON/NON x timing. "
             "Each case runs through the real stack and through Model/C09Stack.run_script; compared: every datagram (type, mid, code, token, payload, options), "
             "log records of interest, exceptions raised into tasks, table sizes at the end. Non-trivial = at least one request answered with a response whose code "
             "was not supplied literally by the handler or two requests in flight at once; distinct by full input.")
@@ -333,6 +332,8 @@ class C09(fw.Property):
                     "harness: virtual-time loop, fake transport, scripted random (mid counter), handlers built from the case description"]
     assumptions = ["request message ids are fresh per remote (deduplication is C04)", "virtual time stays below ACK_TIMEOUT after a CON response (retransmission is C03)",
                    "handler return values that are not Messages are builtin objects (str, int, bytes, tuple, dict, float, None)",
+                   "resources with their own render_to_pipe and to_message() renderers hand over Messages with response codes (Resource.render checks this for render_* handlers since a9de195; "
+                   "the message layer would send anything else as a message of our own: C09_send_message_non_response)",
                    "response Messages serialise: payload is bytes (model type `bytes`); a str payload is the open finding C09:unencodable-response, exercised by the oracle-only stream"]
 
     # ------------------------------------------------------------------ cases
